@@ -236,6 +236,18 @@ def corpus():
         ["validate_schema", True], ["validate"]]})
     out.append({"kind": "history", "spec": sp, "ops": [
         ["validate"], ["default", "Query", bad, True], ["validate_schema", False], ["validate"]]})
+    # seeded C13-i: an ill-formed field name must not stop the other checks of that field
+    inp_i = {"kind": "input", "name": "In", "fields": [{"name": "a", "type": G.N("Int"), "default": None}]}
+    q_i = _obj("Query", [("ok", "Int", [], None), ("bad-name", "In", [("__a", "Query")], [["root", "PK", False]]),
+                         ("bad-name", "Int", [], None)])
+    out.append({"kind": "schema", "stacked": ["field", "type", "argname", "argtype", "resolver", "dup"],
+                "injected": [["LInvalidName", ["bad-name"]], ["LFieldNotOutput", ["Query", "bad-name"]],
+                             ["LInvalidName", ["__a"]], ["LArgNotInput", ["Query", "bad-name", "__a"]],
+                             ["LResPositional", ["Query", "bad-name"]], ["LDuplicateField", ["Query", "bad-name"]]],
+                "spec": _mini([q_i, inp_i])})
+    out.append({"kind": "schema", "stacked": ["field", "dup"],
+                "injected": [["LInvalidName", ["__f"]], ["LDuplicateField", ["Query", "__f"]]],
+                "spec": _mini([_obj("Query", [("__f", "Int", [], None), ("__f", "Int", [], None)])])})
     # seeded C13-h: the validator must see through functools.wraps pass-through decorators
     badw = [["root", "PK", False], ["ctx", "PK", False], ["info", "PK", False]]       # lacks the argument x
     for shape in ("wrapped", "wrapped2"):
@@ -412,6 +424,21 @@ def generate(rng, tier):
                     continue
                 cases.append({"kind": "schema", "spec": r[0], "injected": [r[1]], "single": True})
                 break
+    # several violations stacked on ONE member, one of them its ill-formed name: everything must be
+    # reported together (a bad name masks nothing)
+    subsets = [list(c) for r in range(1, len(G.FIELD_STACK) + 1) for c in itertools.combinations(G.FIELD_STACK, r)]
+    plan = [("field", sub) for sub in (subsets if not quick else rng.sample(subsets, 12))]
+    for tgt in ("input_field", "arg", "dir_arg"):
+        plan += [(tgt, sub) for sub in (["type"], ["dup"], ["type", "dup"])]
+    plan += [("enum_value", []), ("enum_value", ["x"]), ("field", [])]
+    for tgt, sub in plan * (1 if quick else 4):
+        for _ in range(40):
+            base = G.gen_valid_spec(rng, "code")
+            r = G.stack_on_member(rng, base, tgt, sub)
+            if r is None or not _buildable(r[0]):
+                continue
+            cases.append({"kind": "schema", "spec": r[0], "injected": r[1], "stacked": [tgt] + sub})
+            break
     # every invalidator a few times on its own
     for k in G.INVALIDATORS:
         got = 0
@@ -741,6 +768,10 @@ def direct_checks(case, obs):
             out.append(("rejects-violation: %s" % inj[0][0], None))
         if case.get("single") and "errors" in obs and inj[0] not in obs["errors"]:
             out.append(("reports-violation: %s %s" % (inj[0][0], inj[0][1]), None))
+        if case.get("stacked") and "errors" in obs:
+            missing = [x for x in inj if x not in obs["errors"]]
+            if missing:
+                out.append(("reports-all-violations-together: %s lacks %s" % (case["stacked"], missing[:3]), None))
     if k == "history":
         for st in obs["steps"]:
             if st[0] in ("accepted", "invalid"):
